@@ -12,12 +12,11 @@ class AbstractOnlineInterpreter(AbstractInterpreter):
         return
 
     def reset(self):
-        # reset sub-specs
-        for key in self.ast.var_subspec_dict:
-            node = self.ast.var_subspec_dict[key]
-            self.resetVisitor.visitAst(node, self.online_operator_dict)
+        # nothing to reset before the operators are built (first update)
+        if getattr(self, 'online_operator_dict', None) is None:
+            return
 
-        # reset spec
+        # reset spec and sub-specs (every sub-spec is an entry of ast.specs)
         self.resetVisitor.visitAst(self.ast, self.online_operator_dict)
         return
 
